@@ -135,15 +135,17 @@ def plan(prop, tier):
         return [R("repl", 3 if q else 4), T("rand", "repl", 2000, 40000)]
     if prop == "C08":
         o = {"also_unopt": True, "facts": True}
-        T18 = THEOREMS + ["T18_SearchSound"]
+        T18 = THEOREMS + ([] if q else ["T18_SearchSound"])            # (T18 on the big stages only in the thorough tier)
+        T18a = THEOREMS + ["T18_SearchSound"]
         return [dict(G("shapes", Leaves="<-LvOpt", Quants="<-QOpt8", MaxSize=3, MaxLen=3 if q else 4,
                        FlagSets="<-FlagsIM", Alpha="{97, 65, 10}", invs=T18), **o)] + \
                ([] if q else [dict(G("shapes4", Leaves="<-LvOpt6", Quants="<-QSmall", MaxSize=4, MaxLen=3,
                                      FlagSets="<-FlagsIM", Alpha="{97, 65, 10}"), **o)]) + [
                 dict(G("anch", Leaves="<-LvAnch", Quants="<-QBasicLazy", MaxSize=3 if q else 4, FlagSets="<-FlagsMS",
-                       Alpha="{97, 10}", MaxLen=3, invs=T18), **o),
+                       Alpha="{97, 10}", MaxLen=3, invs=T18a), **o),
                 dict(G("fixed", Leaves="<-LvOptFix", Quants="<-QFix", MaxSize=4, FlagSets="<-OnlyNoFlags",
-                       Alpha="{97, 98}", MaxLen=5 if q else 6, invs=["T1_RoundTrip", "T2_OrderFree", "T18_SearchSound"]), **o),
+                       Alpha="{97, 98}", MaxLen=5 if q else 6,
+                       invs=["T1_RoundTrip", "T2_OrderFree"] + ([] if q else ["T18_SearchSound"])), **o),
                 dict(G("sem", MaxSize=3 if q else 4, MaxLen=3), **o),
                 T("rand", "general", 2000, 40000, unopt=True), T("case", "case", 1000, 20000, unopt=True),
                 {"type": "facts", "tag": "facts", "profiles": [("general", 400, 6000), ("anchors", 300, 4000), ("case", 300, 4000)]}]
